@@ -897,28 +897,34 @@ class Live:
         if kind in ('q_lat_get', 'q_lat_call', 'q_lat_idx', 'q_lat_top', 'q_links', 'q_labels'):
             lt = self.lattice_of(sl, ev[2], kind)
             lat = lt[0]
-            ms, table = self.by_extent(sl, lat)
+            # the library call comes first: on a fresh lattice it is the very first query
             if kind == 'q_lat_get':
                 names, e, i = self._key(sl, ev[3], ev[4])
                 out = call(lat.__getitem__, names)
+            elif kind == 'q_lat_call':
+                names = [sl.props[j % f.m] for j in ev[3]]
+                e = f.extent(sl.pmask(names))
+                out = call(lat, names)
+            elif kind == 'q_lat_idx':
+                k = ev[3] % len(f.concepts())
+                out = call(lat.__getitem__, k)
+            elif kind == 'q_lat_top':
+                out = call(lat.__getitem__, ())
+            ms, table = self.by_extent(sl, lat)
+            if kind == 'q_lat_get':
                 rec.check('C02.lattice_getitem_is_member', out.ok and out.value is table.get(e),
                           lambda: f'lattice[{names!r}] = {out.text()} expected extent {sl.onames(e)!r} rows={f.rows} via {lt[2]}')
                 if out.ok:
                     self.ledger_check(sl, lt, e, out.value, f'lattice[{names!r}]')
             elif kind == 'q_lat_call':
-                names = [sl.props[j % f.m] for j in ev[3]]
-                e = f.extent(sl.pmask(names))
-                out = call(lat, names)
                 rec.check('C02.lattice_call_is_member', out.ok and out.value is table.get(e),
                           lambda: f'lattice({names!r}) = {out.text()} expected extent {sl.onames(e)!r} rows={f.rows} via {lt[2]}')
                 if out.ok:
                     self.ledger_check(sl, lt, e, out.value, f'lattice({names!r})')
             elif kind == 'q_lat_idx':
-                k = ev[3] % len(ms)
-                out = call(lat.__getitem__, k)
-                rec.check('C02.lattice_index', out.ok and out.value is ms[k], lambda: f'lattice[{k}] = {out.text()}')
+                rec.check('C02.lattice_index', out.ok and k < len(ms) and out.value is ms[k],
+                          lambda: f'lattice[{k}] = {out.text()}')
             elif kind == 'q_lat_top':
-                out = call(lat.__getitem__, ())
                 rec.check('C02.lattice_top', out.ok and out.value is table.get(f.all_objs),
                           lambda: f'lattice[()] = {out.text()}')
             elif kind == 'q_links':
@@ -1025,14 +1031,20 @@ class Live:
         H = {'kind': hk, 'slot': sl, 'got': [], 'done': False, 'lens': []}
         if hk in ('up', 'down', 'upU', 'downU'):
             lt = self.lattice_of(sl, w, 'h_open')
-            ms, table = self.by_extent(sl, lt[0])
-            H['nlat'] = len(ms)
+            n = len(f.concepts())
+
+            def seed(k):
+                # by index, without iterating the lattice first: the traversal may be its first use
+                got = call(lt[0].__getitem__, k % n)
+                self.need(got.ok, 'lattice_index', lambda: f'lattice[{k % n}] raised {got.text()}')
+                return got.value
+            H['nlat'] = n
             H['dir'] = 'up' if hk in ('up', 'upU') else 'down'
             if hk in ('up', 'down'):
-                seeds = [ms[arg % len(ms)]]
+                seeds = [seed(arg)]
                 out = call(seeds[0].upset if hk == 'up' else seeds[0].downset)
             else:
-                seeds = [ms[a % len(ms)] for a in arg]
+                seeds = [seed(a) for a in arg]
                 src = iter(list(seeds)) if as_iter else list(seeds)
                 out = call(lt[0].upset_union if hk == 'upU' else lt[0].downset_union, src)
                 if len(seeds) != len({id(x) for x in seeds}):
@@ -1042,11 +1054,7 @@ class Live:
                     rec.probe('seed_set_had_comparable_members')
                 if not seeds:
                     rec.probe('empty_seed_collection')
-            if set(table) != {e for e, _ in f.concepts()}:
-                rec.check('C09.members_cover_model', False, lambda: f'lattice members differ from model rows={f.rows}')
-                rec.log('noop')
-                return ()
-            H['want'] = self.traversal_want(sl, table, H['dir'], seeds)
+            H['seeds'], H['lt'], H['want'] = seeds, lt, None
             H['what'] = f'{hk}({[c.extent for c in seeds]!r}) via {lt[2]}'
             if not out.ok:
                 rec.check('C09.total_eq_filter', False, lambda: f'{H["what"]} raised {out.text()}')
@@ -1128,6 +1136,13 @@ class Live:
         sl = H['slot']
         f = sl.fca
         if H['kind'] in ('up', 'down', 'upU', 'downU'):
+            if H['want'] is None:
+                ms, table = self.by_extent(sl, H['lt'][0])
+                if set(table) != {e for e, _ in f.concepts()}:
+                    rec.check('C09.members_cover_model', False, lambda: f'lattice members differ from model rows={f.rows}')
+                    H['done'] = True
+                    return
+                H['want'] = self.traversal_want(sl, table, H['dir'], H['seeds'])
             self.check_traversal(sl, H['dir'], H['got'], H['want'], final, H['what'], nlat=H['nlat'])
         elif H['kind'] == 'lindig':
             cs = f.concepts()
